@@ -673,6 +673,22 @@ Inv_C06_ControllerOf ==
     => /\ BodyCOf \subseteq SeenControlled(PR)
        /\ CondTrue(W.args.body.cr, "Available") => SeenControlled(PR) \subseteq BodyCOf
 
+\* ... and not less either: a rollout pass that ends the normal way (every call answered, no refused adoption, no preflight
+\* violation, not paused) reports every object it saw under its control - also while probes fail (the archive decision of the
+\* deployment and the parent ObjectSet of a delegated phase read this list)
+NormalEnd(pr) == ~pr.apiErr /\ ~(\E k \in Keys : IsRefusal(pr.verdict[k])) /\ pr.dryseen \subseteq pr.dryok
+\* (delegated phases: what the phase object reported, for the phases the loop reached - a phase object read later in the
+\* pass only for the Paused condition is not "seen" by the phase loop)
+SeenControlledReached(pr) ==
+    { k \in Keys : pr.obs[k].valid /\ pr.obs[k].present /\ pr.obs[k].ctrl /\ k \in ListedObjKeys(pr) /\ ~IsDelegatedKey(pr, k) }
+    \cup UNION { IF IsSetActor(pr.actor) /\ IsDelegated(pr, j) /\ pr.phfirst[pr.snap.cr.phases[j].phaseKey].valid
+                      /\ (\A i \in 1..(j - 1) : \A x \in PhaseWriteKeys(pr, i) : pr.obs[x].valid /\ pr.obs[x].present /\ pr.obs[x].passes)
+                   THEN Range(pr.phfirst[pr.snap.cr.phases[j].phaseKey].o.cr.controllerOf) ELSE {}
+                 : j \in 1..NPhases(pr) }
+Inv_C06_ControllerOfComplete ==
+    (StatusEv /\ W.res = "ok" /\ Rollout(PR) /\ ~SnapPaused(PR) /\ NormalEnd(PR))
+    => SeenControlledReached(PR) \subseteq BodyCOf
+
 \* Succeeded is first written only together with Available=True and without InTransition, and never withdrawn
 Inv_C06_SucceededWhenAvailable ==
     (StatusEv /\ W.res = "ok" /\ CondTrue(W.post.cr, "Succeeded") /\ ~CondTrue(W.pre.cr, "Succeeded"))
